@@ -250,11 +250,11 @@ def run_check(world, prop, tier, verif_seed, level, rule, assumptions, scale=1.0
             fh.write("\n")
         if note:
             print("NOTE %s %s: %s" % (prop, clause, note))
-        entry = {"clause": clause, "signature": f1["signature"], "runs_failing": len(members), "replay": path, "minimised": chosen.get("minimised"), "reproduced": doc["reproduced"]}
+        entry = {"clause": clause, "signature": f1["signature"], "runs_failing": len(set(i_ for i_, _ in members)), "replay": path, "minimised": chosen.get("minimised"), "reproduced": doc["reproduced"]}
         dup = next((e for e in violations + known_hits if e["clause"] == clause and e["signature"] == f1["signature"]), None)
         if dup is not None:
             # same clause and same minimised signature as a group already reported
-            dup["runs_failing"] += len(members)
+            dup["runs_failing"] += len(set(i_ for i_, _ in members))
             os.remove(path)
         elif kf is not None:
             known_hits.append(dict(entry, what=kf.get("what")))
